@@ -1069,6 +1069,7 @@ bool Session::send_process(Message *msg) // called from the connection (possibly
 		char output[FIX8_MAX_MSG_LENGTH + HEADER_CALC_OFFSET], *ptr(output);
 		size_t enclen(msg->encode(&ptr));
 		const char *optr(ptr);
+		const size_t olen(enclen); // this message alone: what is logged and persisted, also when a batch buffer is transmitted
 		if (msg->get_end_of_batch())
 		{
 			if (!_batchmsgs_buffer.empty())
@@ -1102,7 +1103,7 @@ bool Session::send_process(Message *msg) // called from the connection (possibly
 			{
 				f8_scoped_spin_lock guard(_per_spl, _connection->get_pmodel() == pm_coro); // not needed for coroutine mode
 				if (!msg->is_admin())
-					_persist->put(_next_send_seq, ptr);
+					_persist->put(_next_send_seq, f8String(optr, olen));
 				_persist->put(_next_send_seq + 1, _next_receive_seq);
 				//cout << "Persisted (send):" << (_next_send_seq + 1) << " and " << _next_receive_seq << endl;
 			}
